@@ -1,71 +1,102 @@
 ------------------------------ MODULE SrThunk ------------------------------
 (***************************************************************************)
 (* The stop-request thunk of task.hpp (_sr_thunk_promise_base): join of a  *)
-(* deferred stop request with the completion of the wrapped task, under    *)
-(* all interleavings of three threads:                                     *)
+(* deferred stop request with the completion of the wrapped task, at the   *)
+(* granularity of the schedule points coro.sr.* added to task.hpp (one     *)
+(* action = the code from one schedule point to the next).  Roles:         *)
+(*   R  the thread that awaits the thunk: register_stop_callback()         *)
 (*   T  the thread on which the wrapped task completes                     *)
-(*      (complete_and_choose_continuation: callback_.destruct();           *)
-(*       whoToContinue_ = h; refCount_.fetch_sub(1) == 1 ? resume : noop)  *)
+(*      complete_and_choose_continuation:                                  *)
+(*        [fin_destruct] callback_.destruct()   (blocks while the callback *)
+(*                       runs on another thread)                           *)
+(*        [fin_who]      whoToContinue_ = h                                *)
+(*        [fin_fsub]     refCount_.fetch_sub(1) == 1 ? resume h : noop     *)
 (*   S  a thread calling request_stop() on the receiver's stop source      *)
-(*      (stop_callback: refCount_.fetch_add(1) == 0 ? return :             *)
-(*       start(stopOperation_), i.e. schedule onto the task's scheduler)   *)
-(*   Q  the scheduler thread that runs the deferred stop request           *)
-(*      (stopSource_.request_stop(); receiver_t::set_value:                *)
-(*       refCount_.fetch_sub(1) == 1 ? whoToContinue_.resume())            *)
-(* Destroying an inplace_stop_callback blocks while the callback is being  *)
-(* executed by another thread, and prevents it from starting afterwards.   *)
-(* Resuming the continuation may destroy the thunk's coroutine frame       *)
-(* (modelled as: it does, immediately), so every later access to a member  *)
-(* of the promise is a use-after-free.                                     *)
-(* DestructFirst = FALSE moves callback_.destruct() behind the decrement:  *)
-(* TLC then finds the use-after-free (demonstrates that the model bites).  *)
+(*        [h.stop]       request_stop(): dequeues the callback if          *)
+(*                       registered (tau step "take")                      *)
+(*        [cb_fadd]      stop_callback: refCount_.fetch_add(1) == 0 ?      *)
+(*                       return : start(stopOperation_) (= schedule())     *)
+(*   Q  the scheduler thread running the deferred stop request             *)
+(*        (tau)          stopSource_.request_stop()                        *)
+(*        [op_fsub]      refCount_.fetch_sub(1) == 1 ?                     *)
+(*        [op_who]         whoToContinue_.resume()                         *)
+(* Resuming the continuation destroys the thunk's coroutine frame (the     *)
+(* harness receiver destroys the operation inside its completion), so any  *)
+(* later access to a member of the promise is a use-after-free.            *)
+(* lab is the label of the last action: a schedule-point site or "tau";    *)
+(* the exported transition graph is used to check that the order of thunk  *)
+(* steps in every recorded real execution is a behaviour of this model.    *)
+(* Variant # "ok" are seeded defects (the model must refute them):         *)
+(*   who_late     whoToContinue_ written after the decrement               *)
+(*   start_early  stopOperation_ started before the reference is taken     *)
+(*   no_destruct  the stop callback is never destroyed                     *)
 (***************************************************************************)
 EXTENDS Integers, TLC
-CONSTANTS DestructFirst, StopMayHappen
-VARIABLES ref, who, cb, pcT, pcS, pcQ, queued, resumed, freed, bad, sawZero
-vars == <<ref, who, cb, pcT, pcS, pcQ, queued, resumed, freed, bad, sawZero>>
-Init == /\ ref = 1 /\ who = FALSE /\ cb = "registered"        \* registered | running | ran | destroyed
-        /\ pcT = IF DestructFirst THEN "destruct" ELSE "setwho"
-        /\ pcS = (IF StopMayHappen THEN "request" ELSE "end") /\ pcQ = "wait"
-        /\ queued = FALSE /\ resumed = 0 /\ freed = FALSE /\ bad = FALSE /\ sawZero = FALSE
+CONSTANTS Variant
+VARIABLES ref, who, cb, reqd, pcT, pcS, pcQ, queued, resumed, freed, bad, sawZero, last, lab
+core == <<ref, who, cb, reqd, pcT, pcS, pcQ, queued, resumed, freed, bad, sawZero, last>>
+vars == <<ref, who, cb, reqd, pcT, pcS, pcQ, queued, resumed, freed, bad, sawZero, last, lab>>
+Init == /\ ref = 1 /\ who = FALSE /\ cb = "unreg"       \* unreg | registered | running | ran | destroyed
+        /\ reqd = FALSE
+        /\ pcT = (IF Variant = "no_destruct" THEN "who" ELSE "destruct")
+        /\ pcS \in {"begin", "end"} /\ pcQ = "wait"
+        /\ queued = FALSE /\ resumed = 0 /\ freed = FALSE /\ bad = FALSE /\ sawZero = FALSE /\ last = FALSE
+        /\ lab = "init"
 Touch == bad' = (bad \/ freed)                                   \* an access to a member of the promise
+Resume == resumed' = resumed + 1 /\ freed' = TRUE
+\* ---- R: the stop callback is constructed; if stop was already requested it runs inline in the constructor
+RRegister == /\ cb = "unreg" /\ lab' = "tau"
+             /\ IF reqd THEN cb' = "running" /\ pcS' = "fadd" /\ queued' = (Variant = "start_early")
+                ELSE cb' = "registered" /\ pcS' = pcS /\ queued' = queued
+             /\ UNCHANGED <<ref, who, reqd, pcT, pcQ, resumed, freed, bad, sawZero, last>>
 \* ---- T: the task completes
-TDestruct == /\ pcT = "destruct" /\ cb # "running"               \* blocks while S executes the callback
-             /\ cb' = "destroyed" /\ Touch
-             /\ pcT' = IF DestructFirst THEN "setwho" ELSE "end"
-             /\ UNCHANGED <<ref, who, pcS, pcQ, queued, resumed, freed, sawZero>>
-TSetWho == /\ pcT = "setwho" /\ who' = TRUE /\ Touch /\ pcT' = "fsub"
-           /\ UNCHANGED <<ref, cb, pcS, pcQ, queued, resumed, freed, sawZero>>
-TFsub == /\ pcT = "fsub" /\ ref' = ref - 1 /\ Touch
-         /\ pcT' = IF ref = 1 THEN "resume" ELSE (IF DestructFirst THEN "end" ELSE "destruct")
-         /\ UNCHANGED <<who, cb, pcS, pcQ, queued, resumed, freed, sawZero>>
-TResume == /\ pcT = "resume" /\ resumed' = resumed + 1 /\ freed' = TRUE
-           /\ pcT' = (IF DestructFirst THEN "end" ELSE "destruct") /\ bad' = bad
-           /\ UNCHANGED <<ref, who, cb, pcS, pcQ, queued, sawZero>>
+TEnabled == cb # "unreg"
+TDestruct == /\ TEnabled /\ pcT = "destruct" /\ lab' = "coro.sr.fin_destruct"
+             /\ IF cb = "running" THEN cb' = cb /\ pcT' = "destruct_wait"          \* blocks while S executes the callback
+                ELSE cb' = "destroyed" /\ pcT' = (IF Variant = "who_late" THEN "fsub" ELSE "who")
+             /\ Touch
+             /\ UNCHANGED <<ref, who, reqd, pcS, pcQ, queued, resumed, freed, sawZero, last>>
+TDestructWait == /\ pcT = "destruct_wait" /\ cb # "running" /\ lab' = "tau"
+                 /\ cb' = "destroyed" /\ pcT' = (IF Variant = "who_late" THEN "fsub" ELSE "who") /\ Touch
+                 /\ UNCHANGED <<ref, who, reqd, pcS, pcQ, queued, resumed, freed, sawZero, last>>
+TWho == /\ TEnabled /\ pcT = "who" /\ lab' = "coro.sr.fin_who"
+        /\ who' = TRUE /\ Touch
+        /\ IF Variant = "who_late"
+           THEN pcT' = "end" /\ (IF last THEN Resume ELSE UNCHANGED <<resumed, freed>>)
+           ELSE pcT' = "fsub" /\ UNCHANGED <<resumed, freed>>
+        /\ UNCHANGED <<ref, cb, reqd, pcS, pcQ, queued, sawZero, last>>
+TFsub == /\ TEnabled /\ pcT = "fsub" /\ lab' = "coro.sr.fin_fsub"
+         /\ ref' = ref - 1 /\ Touch
+         /\ IF Variant = "who_late"
+            THEN pcT' = "who" /\ last' = (ref = 1) /\ UNCHANGED <<resumed, freed>>
+            ELSE pcT' = "end" /\ last' = last /\ (IF ref = 1 THEN Resume ELSE UNCHANGED <<resumed, freed>>)
+         /\ UNCHANGED <<who, cb, reqd, pcS, pcQ, queued, sawZero>>
 \* ---- S: request_stop() on the receiver's source
-SRequest == /\ pcS = "request"
-            /\ IF cb = "registered" THEN cb' = "running" /\ pcS' = "fadd"
-               ELSE cb' = cb /\ pcS' = "end"                       \* callback already deregistered: nothing to run
-            /\ UNCHANGED <<ref, who, pcT, pcQ, queued, resumed, freed, bad, sawZero>>
-SFadd == /\ pcS = "fadd" /\ ref' = ref + 1 /\ Touch /\ sawZero' = (sawZero \/ ref = 0)
-         /\ pcS' = IF ref = 0 THEN "cbend" ELSE "start"
-         /\ UNCHANGED <<who, cb, pcT, pcQ, queued, resumed, freed>>
-SStart == /\ pcS = "start" /\ queued' = TRUE /\ Touch /\ pcS' = "cbend"     \* start(stopOperation_): schedule()
-          /\ UNCHANGED <<ref, who, cb, pcT, pcQ, resumed, freed, sawZero>>
-SCbEnd == /\ pcS = "cbend" /\ cb' = "ran" /\ pcS' = "end" /\ bad' = bad
-          /\ UNCHANGED <<ref, who, pcT, pcQ, queued, resumed, freed, sawZero>>
+SBegin == /\ pcS = "begin" /\ lab' = "coro.h.stop" /\ pcS' = "take"
+          /\ UNCHANGED <<ref, who, cb, reqd, pcT, pcQ, queued, resumed, freed, bad, sawZero, last>>
+STake == /\ pcS = "take" /\ lab' = "tau" /\ reqd' = TRUE
+         /\ IF cb = "registered"
+            THEN cb' = "running" /\ pcS' = "fadd" /\ queued' = (Variant = "start_early")     \* (defect: start() before the reference)
+            ELSE cb' = cb /\ pcS' = "end" /\ queued' = queued        \* nothing registered (yet / any more)
+         /\ UNCHANGED <<ref, who, pcT, pcQ, resumed, freed, bad, sawZero, last>>
+SFadd == /\ pcS = "fadd" /\ lab' = "coro.sr.cb_fadd"
+         /\ ref' = ref + 1 /\ Touch /\ sawZero' = (sawZero \/ ref = 0)
+         /\ queued' = (queued \/ ref # 0)                          \* start(stopOperation_) = schedule()
+         /\ pcS' = "cbend"
+         /\ UNCHANGED <<who, cb, reqd, pcT, pcQ, resumed, freed, last>>
+SCbEnd == /\ pcS = "cbend" /\ lab' = "tau" /\ cb' = "ran" /\ pcS' = "end"
+          /\ UNCHANGED <<ref, who, reqd, pcT, pcQ, queued, resumed, freed, bad, sawZero, last>>
 \* ---- Q: the scheduler runs the deferred stop request
-QRun == /\ pcQ = "wait" /\ queued /\ pcQ' = "reqstop" /\ bad' = bad
-        /\ UNCHANGED <<ref, who, cb, pcT, pcS, queued, resumed, freed, sawZero>>
-QReqStop == /\ pcQ = "reqstop" /\ Touch /\ pcQ' = "fsub"          \* stopSource_.request_stop()
-            /\ UNCHANGED <<ref, who, cb, pcT, pcS, queued, resumed, freed, sawZero>>
-QFsub == /\ pcQ = "fsub" /\ ref' = ref - 1 /\ Touch
-         /\ pcQ' = IF ref = 1 THEN "resume" ELSE "end"
-         /\ UNCHANGED <<who, cb, pcT, pcS, queued, resumed, freed, sawZero>>
-QResume == /\ pcQ = "resume" /\ bad' = (bad \/ freed \/ ~who)     \* reads whoToContinue_
-           /\ resumed' = resumed + 1 /\ freed' = TRUE /\ pcQ' = "end"
-           /\ UNCHANGED <<ref, who, cb, pcT, pcS, queued, sawZero>>
-Next == TDestruct \/ TSetWho \/ TFsub \/ TResume \/ SRequest \/ SFadd \/ SStart \/ SCbEnd \/ QRun \/ QReqStop \/ QFsub \/ QResume
+QRun == /\ pcQ = "wait" /\ queued /\ lab' = "tau" /\ pcQ' = "fsub" /\ Touch      \* stopSource_.request_stop()
+        /\ UNCHANGED <<ref, who, cb, reqd, pcT, pcS, queued, resumed, freed, sawZero, last>>
+QFsub == /\ pcQ = "fsub" /\ lab' = "coro.sr.op_fsub" /\ ref' = ref - 1 /\ Touch
+         /\ pcQ' = IF ref = 1 THEN "who" ELSE "end"
+         /\ UNCHANGED <<who, cb, reqd, pcT, pcS, queued, resumed, freed, sawZero, last>>
+QWho == /\ pcQ = "who" /\ lab' = "coro.sr.op_who"
+        /\ bad' = (bad \/ freed \/ ~who)                          \* reads whoToContinue_
+        /\ Resume /\ pcQ' = "end"
+        /\ UNCHANGED <<ref, who, cb, reqd, pcT, pcS, queued, sawZero, last>>
+Next == RRegister \/ TDestruct \/ TDestructWait \/ TWho \/ TFsub \/ SBegin \/ STake \/ SFadd \/ SCbEnd \/ QRun \/ QFsub \/ QWho
 Spec == Init /\ [][Next]_vars /\ WF_vars(Next)
 AllEnded == pcT = "end" /\ pcS = "end" /\ (pcQ = "end" \/ (pcQ = "wait" /\ ~queued))
 NoUseAfterFree == ~bad
@@ -74,4 +105,5 @@ ResumedAtEnd == AllEnded => resumed = 1
 CallbackNeverSeesZero == ~sawZero              \* the `== 0` branch of stop_callback is defensive only
 NoDeadlock == AllEnded \/ ENABLED Next
 Termination == <>AllEnded
+View == core
 =============================================================================
